@@ -1,5 +1,7 @@
 // The simulator is a test binary because testing/synctest needs a *testing.T.
 // It is driven by environment variables (see /verif/check).
+//
+//go:debug randseednop=0
 package run
 
 import (
@@ -17,6 +19,7 @@ import (
 
 	"verifsim/core"
 	_ "verifsim/h/kvs"
+	_ "verifsim/h/master"
 	_ "verifsim/h/pipe"
 	_ "verifsim/h/repl"
 	_ "verifsim/h/walq"
@@ -33,6 +36,10 @@ func TestWorker(t *testing.T) {
 	mode := os.Getenv("VERIF_MODE")
 	if mode == "" {
 		t.Skip("VERIF_MODE not set")
+	}
+	// package-level math/rand must be seedable: it is an input of the runs
+	if !strings.Contains(os.Getenv("GODEBUG"), "randseednop=0") {
+		os.Setenv("GODEBUG", strings.TrimPrefix(os.Getenv("GODEBUG")+",randseednop=0", ","))
 	}
 	logger.RunningAtomicLevel.SetLevel(zapcore.FatalLevel + 1)
 	out := os.Stdout
